@@ -14,6 +14,8 @@ package compare
 
 import (
 	"fmt"
+	"reflect"
+	"sort"
 	"strings"
 )
 
@@ -69,7 +71,7 @@ func Compare(a, b any) int {
 		}
 	default:
 		{
-			return strings.Compare(fmt.Sprintf("%v", a), fmt.Sprintf("%v", b))
+			return strings.Compare(Text(a), Text(b))
 		}
 	}
 }
@@ -158,8 +160,102 @@ func compare[T int | int32 | int64 | int16 | int8 | uint | uint32 | uint64 | uin
 		}
 	case string:
 		{
-			return strings.Compare(fmt.Sprintf("%v", a), t)
+			return strings.Compare(Text(a), t)
 		}
 	}
-	return strings.Compare(fmt.Sprintf("%v", a), fmt.Sprintf("%v", v))
+	return strings.Compare(Text(a), Text(v))
+}
+
+// Text prints a value the way fmt's %v does. A value that contains itself (a row that selected the
+// document it is stored in does) cannot be printed that way - fmt would follow it until the stack
+// overflows, which ends the process - so the part that is entered a second time is printed as
+// <itself>
+func Text(value any) string {
+	switch value.(type) {
+	case map[string]any, []any:
+		if containsItself(value, make(map[uintptr]struct{})) {
+			var text strings.Builder
+			writeText(&text, value, make(map[uintptr]struct{}))
+			return text.String()
+		}
+	}
+	return fmt.Sprintf("%v", value)
+}
+
+func address(value any) (uintptr, bool) {
+	switch value := value.(type) {
+	case map[string]any:
+		return reflect.ValueOf(value).Pointer(), len(value) != 0
+	case []any:
+		return reflect.ValueOf(value).Pointer(), len(value) != 0
+	}
+	return 0, false
+}
+
+func containsItself(value any, path map[uintptr]struct{}) bool {
+	self, ok := address(value)
+	if !ok {
+		return false
+	}
+	if _, ok := path[self]; ok {
+		return true
+	}
+	path[self] = struct{}{}
+	defer delete(path, self)
+	switch value := value.(type) {
+	case map[string]any:
+		for _, member := range value {
+			if containsItself(member, path) {
+				return true
+			}
+		}
+	case []any:
+		for _, member := range value {
+			if containsItself(member, path) {
+				return true
+			}
+		}
+	}
+	return false
+}
+
+func writeText(text *strings.Builder, value any, path map[uintptr]struct{}) {
+	self, ok := address(value)
+	if ok {
+		if _, ok := path[self]; ok {
+			text.WriteString("<itself>")
+			return
+		}
+		path[self] = struct{}{}
+		defer delete(path, self)
+	}
+	switch value := value.(type) {
+	case map[string]any:
+		keys := make([]string, 0, len(value))
+		for key := range value {
+			keys = append(keys, key)
+		}
+		sort.Strings(keys)
+		text.WriteString("map[")
+		for i, key := range keys {
+			if i != 0 {
+				text.WriteByte(' ')
+			}
+			text.WriteString(key)
+			text.WriteByte(':')
+			writeText(text, value[key], path)
+		}
+		text.WriteByte(']')
+	case []any:
+		text.WriteByte('[')
+		for i, member := range value {
+			if i != 0 {
+				text.WriteByte(' ')
+			}
+			writeText(text, member, path)
+		}
+		text.WriteByte(']')
+	default:
+		fmt.Fprintf(text, "%v", value)
+	}
 }
